@@ -2724,7 +2724,7 @@ pub fn freeze(env: &mut FreezeEnv, expr: &LocExpr) -> NRes<LocExpr> {
             }
             Expr::SymbolAccess(e, f) => Ok(Expr::SymbolAccess(box_freeze(env, e)?, f.clone())),
             Expr::CommaSeq(s) => Ok(Expr::CommaSeq(vec_box_freeze(env, s)?)),
-            Expr::Splat(s) => Ok(Expr::Splat(box_freeze(env, s)?)),
+            Expr::Splat(s) => Ok(Expr::Splat(box_freeze_underscore_ok(env, s)?)),
             Expr::List(xs) => {
                 let v = vec_box_freeze_underscore_ok(env, xs)?;
                 match v
